@@ -56,6 +56,9 @@ def verdicts_of(pattern):
     return v
 
 
+DEFAULT_WINDOW_CALLS = [0]
+
+
 def call_split(data, rate, min_dur, max_dur, max_silence, w, style, **extra):
     if style.startswith("reader"):
         src = AudioReader(data, block_dur=w, sampling_rate=rate, sample_width=2, channels=1)
@@ -63,6 +66,12 @@ def call_split(data, rate, min_dur, max_dur, max_silence, w, style, **extra):
             # for an AudioReader input w is the reader's block duration: a window keyword must not change the counting
             extra = dict(extra, **{("analysis_window" if int(w * 1000) % 2 else "aw"): (w * 2 if int(w * 100) % 2 else w / 2)})
         return list(auditok.split(src, min_dur, max_dur, max_silence, **extra))
+    if w == 0.05 and style in ("bytes", "region-method") and int(min_dur * 1e6) % 2:
+        # the documented default window: the argument is simply left out
+        DEFAULT_WINDOW_CALLS[0] += 1
+        if style == "bytes":
+            return list(auditok.split(data, min_dur, max_dur, max_silence, sr=rate, sw=2, ch=1, **extra))
+        return list(auditok.AudioRegion(data, rate, 2, 1).split(min_dur, max_dur, max_silence, **extra))
     if style == "bytes-aw":
         return list(auditok.split(data, min_dur, max_dur, max_silence, sr=rate, sw=2, ch=1, aw=w, **extra))
     if style == "region-method":
@@ -435,6 +444,11 @@ def run_shard(ctx):
             continue
         n += 1
         burst_case(ctx, rng, min_dur, max_dur, max_silence, w, rate, conf["max_windows"])
+    # the default window on purpose: durations that are whole windows of 0.05 s
+    for _ in range(12 if ctx.tier == "quick" else 400):
+        k1, k2 = sorted((rng.randint(1, 12), rng.randint(1, 12)))
+        burst_case(ctx, rng, round(k1 * 0.05 + 1e-6, 6), round(k2 * 0.05, 4), round(rng.randint(0, k2) * 0.05, 4), 0.05, rng.choice((100, 1000, 8000)), conf["max_windows"])
+    ctx.count("calls_relying_on_the_default_analysis_window", DEFAULT_WINDOW_CALLS[0])
 
 
 def replay(ctx, case):
@@ -459,7 +473,7 @@ def inconclusive(merged, tier):
     c = merged["counters"]
     return [f"monitor never observed {k}" for k in
             ("accept_grid_accepted", "accept_grid_ValueError", "burst_cases", "burst_regions_observed",
-             "burst_style_bytes", "burst_style_reader", "burst_style_region", "bursts_with_a_shorter_final_window", "overlap_reader_regions", "validator_fault_cases", "large_quotient_cases", "near_integer_small_count_cases", "reader_with_conflicting_window_keyword", "accept_grid_spelling_bytes-aw", "crisp_burst_of_exactly_ceil(min_dur/w)",
+             "burst_style_bytes", "burst_style_reader", "burst_style_region", "bursts_with_a_shorter_final_window", "overlap_reader_regions", "validator_fault_cases", "calls_relying_on_the_default_analysis_window", "large_quotient_cases", "near_integer_small_count_cases", "reader_with_conflicting_window_keyword", "accept_grid_spelling_bytes-aw", "crisp_burst_of_exactly_ceil(min_dur/w)",
              "crisp_burst_of_ceil(min_dur/w)-1", "reject_clause:window shorter than one sample",
              "reject_clause:min_dur needs more windows than max_dur allows",
              "reject_clause:max_silence not below max_dur in windows") if c.get(k, 0) == 0]
